@@ -360,11 +360,10 @@ Fixpoint mk_msgs (gs : list (msgset * list (msgset * list etree))) : result (lis
 Definition mk_OFX (signon_ : etree) (rest : list (result (list etree))) : result etree :=
   agg (T "OFX") (fsub (T "OFX") (T "signonmsgsrqv1") (Some signon_) :: rest).
 
-Definition request_statements (c : cfg) (uuids : list text) (dtclient : pdate) (password : text)
-           (gen_newfileuid : bool) (requests : list rq) : result composed :=
-  let sorted := isort kind_leb requests in
-  let groups := groupby kind_eqb kind_of sorted in
-  bind (wrap_groups c groups uuids) (fun tr =>
+(** request_statements after the wrappers are built: sort of the (message-set class, [trnrq]) pairs by class name, groupby,
+    dict, sign-on, OFX(...), NEWFILEUID, serialize *)
+Definition statements_tail (c : cfg) (dtclient : pdate) (password : text) (gen_newfileuid : bool)
+           (tr : list (msgset * list etree) * list text) : result composed :=
   let trnrqs := isort pair_leb (fst tr) in
   bind (mk_msgs (groupby msgset_eqb fst trnrqs)) (fun msgs =>
   bind (signon c dtclient password None) (fun so =>
@@ -372,7 +371,38 @@ Definition request_statements (c : cfg) (uuids : list text) (dtclient : pdate) (
                    fsub (T "OFX") (T "creditcardmsgsrqv1") (dict_get MCc msgs);
                    fsub (T "OFX") (T "invstmtmsgsrqv1") (dict_get MInv msgs)]) (fun ofx =>
   bind (if gen_newfileuid then rmap (fun p => (Some (fst p), snd p)) (take_uuid (snd tr)) else OK (None, snd tr)) (fun nf =>
-  serialize c None None (fst nf) ofx))))).
+  serialize c None None (fst nf) ofx)))).
+
+(** requests that are instances of the five stock parameter classes *)
+Definition request_statements (c : cfg) (uuids : list text) (dtclient : pdate) (password : text)
+           (gen_newfileuid : bool) (requests : list rq) : result composed :=
+  let sorted := isort kind_leb requests in
+  let groups := groupby kind_eqb kind_of sorted in
+  bind (wrap_groups c groups uuids) (statements_tail c dtclient password gen_newfileuid).
+
+(** the same for requests that may be instances of USER SUBCLASSES of the stock classes (class Tagged(CcStmtRq): pass):
+    a request is (its class's __name__, its fields); sorted by that name, grouped by class (one class per name: the
+    domain), each group dispatched by singledispatch to the wrapper of its base kind (the class of the group's first
+    member decides the message set).  With the stock names this is [request_statements] (Proofs: named_stock). *)
+Definition named := (text * rq)%type.
+Definition name_leb (a b : named) : bool := text_leb (fst a) (fst b).
+Fixpoint wrap_named_groups (c : cfg) (gs : list (text * list named)) (uu : list text)
+  : result (list (msgset * list etree) * list text) :=
+  match gs with
+  | [] => OK ([], uu)
+  | (_, rqs) :: rest =>
+    match rqs with
+    | [] => wrap_named_groups c rest uu                       (* groupby never yields an empty group *)
+    | first :: _ =>
+      bind (wrap_all c (map snd rqs) uu) (fun ws =>
+      bind (wrap_named_groups c rest (snd ws)) (fun r => OK ((msgset_of (kind_of (snd first)), fst ws) :: fst r, snd r)))
+    end
+  end.
+Definition request_statements_named (c : cfg) (uuids : list text) (dtclient : pdate) (password : text)
+           (gen_newfileuid : bool) (requests : list named) : result composed :=
+  let sorted := isort name_leb requests in
+  let groups := groupby text_eqb fst sorted in
+  bind (wrap_named_groups c groups uuids) (statements_tail c dtclient password gen_newfileuid).
 
 (* ---------------------------------------------------------------- account info, tax, profile requests *)
 Definition request_accounts (c : cfg) (uuids : list text) (dtclient : pdate) (password : text) (dtacctup : pdate)
